@@ -1,23 +1,125 @@
-"""C13 - see DESIGN.md §2 C13.  Deductive parts (contracts/) are added to this module as they are built; the bounded stand-in is checks/b13.py."""
+"""C13 - edits keep derived views coherent; transactions atomic; copies independent (DESIGN §1.6, §2 C13).
+F: cache-coherence typestate with ghost write-sets over the AST of every covered mutator (read-sets derived from the AST, declared
+read-sets for the keys flush_cache may keep); P: the fix_stereo retry-loop lemma F relies on; T: transaction rollback restores every
+state slot, constructors bind every slot; B (checks/b13.py): exhaustive edit histories against an independently rebuilt molecule."""
+import ast
+
 from vlib import env
+import tables
 from checks.common import bounded_part, want, contract_sources, make_replay, t_oblig
 from pysym.harness import run_cases
 
 LEVEL = 'other'
-DEDUCTIVE = []          # contract modules run by engine P for this property
-FINISH = dict(rule='see checks/b13.py RULE / run.bound entries', explanation='bounded stand-in (engine B) of the contracts of DESIGN §2 C13; '
-              'labelled bounded, never counted as proved', trusted_base=['CPython 3.12', 'oracles/*', 'RDKit where stated'])
 replay = make_replay('C13')
-
-
-def deductive(run):
-    for mod in DEDUCTIVE:
-        run_cases(run, mod)
+NOT_COVERED_BY_F = {
+    'calculate_cis_trans_from_2d': 'flush is guarded by `flag and clean_cache`; the correlation flag <-> writes needs path-sensitive reasoning',
+    'implicify_hydrogens': 'writes happen in two loops (over to_remove and over fixed) before a flush guarded by to_remove',
+    'neutralize': 'works on copies and chooses among them; writes to self are guarded by data-dependent conditions',
+    'standardize_charges': 'pops atoms_order by hand between charge edits (in-place recomputation reasoning)',
+    '__standardize / standardize / canonicalize': 'keep flags are data dependent (rule tables)',
+}
+FINISH = dict(
+    rule='F: one obligation per (mutator, cache key) "not stale at exit", per read site "read key is fresh", per flush site, per declared read-set; '
+         'P: one per path of the fix_stereo loop body; B: operation histories, non-trivial = history that changes the structure',
+    explanation='Coherence of the memoised views is proved by frames: every write to a location makes the cached keys whose derived read-set contains '
+                'it stale; flushes clear them; every read inside a mutator and every exit must see no stale key. The analysis is flow-sensitive over the '
+                'real AST, inlines self-calls with constant arguments and evaluates simple guards. Assumed frame facts are listed under assumptions; '
+                'mutators the analysis cannot discharge are listed under not_covered and are left to the bounded histories.',
+    trusted_base=['CPython ast', 'frames/engine.py (abstract interpreter, reviewed not verified)', 'attribute-name based read/write classification',
+                  'z3 via pysym for the loop lemma'])
 
 
 def main(run):
     env.setup()
-    if want(run, 'P') or want(run, 'T'):
-        deductive(run)
+    from contracts import cache, cachelemmas
+    if want(run, 'F'):
+        model, a = cache.analyzer()
+        for name, fs in sorted(model.funcs.items()):
+            f = fs[0]
+            if f.key:
+                run.under_contract(f.file.replace(env.REPO + '/', ''), f'{f.cls.__name__}.{f.name} [cache key {f.key}]', ast.unparse(f.node))
+        seen_fail = set()
+        for label, meth, consts, pre in cache.MUTATORS:
+            if label in NOT_COVERED_BY_F:
+                continue
+            f = model.lookup(meth)
+            run.under_contract(f.file.replace(env.REPO + '/', ''), f'{f.cls.__name__}.{meth}', ast.unparse(f.node))
+            n0 = len(a.obligations)
+            fails = a.run_mutator(meth, consts=consts, pre_stale_all=pre, label=label)
+            failed_keys = {x.key for x in fails if x.kind == 'exit-stale'}
+            for k in sorted(a.all_keys):
+                ok = k not in failed_keys
+                kk = None
+                if not ok:
+                    fl = next(x for x in fails if x.kind == 'exit-stale' and x.key == k)
+                    kk = run.violation(f'{label}:exit-stale:{k}', f'engine F: after {label} the cached value {k} may be out of date: {fl.detail} ({fl.where})',
+                                       witness={'mutator': label, 'key': k, 'where': fl.where, 'read_set': sorted(a.rs[k][0])}, obligation=f'{label}:exit-coherent:{k}',
+                                       solver_output=repr(fl), found_input=False)
+                run.oblig(f'{label}:exit-coherent:{k}', ok, 'F', 'frames', 0.0, known=(kk == 'known'))
+            for x in fails:
+                if x.kind != 'exit-stale':
+                    kk = run.violation(f'{label}:{x.kind}:{x.key}', f'engine F: inside {label} {x.detail} ({x.where})',
+                                       witness={'mutator': label, 'key': x.key, 'where': x.where}, obligation=f'{label}:{x.kind}:{x.key}', solver_output=repr(x),
+                                       found_input=False)
+                    run.oblig(f'{label}:{x.kind}:{x.key}', False, 'F', 'frames', 0.0, known=(kk == 'known'))
+            for name, ok in a.obligations[n0:]:
+                if ':exit-coherent' not in name:
+                    run.oblig(name, ok, 'F', 'frames', 0.0)
+        for fn_ in ('flush_cache', 'copy'):
+            kk = a.kept_keys(fn_)
+            for flag, allowed in (('keep_sssr', cache.DECLARED['sssr']), ('keep_components', cache.DECLARED['connected_components'])):
+                for k in sorted(kk[flag]):
+                    d = a.rs.get(k, (None,))[0]
+                    ok = d is not None and d <= allowed
+                    t_oblig(run, f'{fn_}({flag}=True)-keeps-only-keys-with-narrow-read-set[{k}]', ok, key=f'kept-key:{fn_}:{flag}:{k}',
+                            what=f'{fn_}({flag}=True) keeps cache key {k} whose read-set {sorted(d) if d else "?"} is not inside {sorted(allowed)}: '
+                                 f'it survives writes it depends on', witness={'key': k, 'derived': sorted(d) if d else None}, engine='F')
+        for k, decl in cache.DECLARED.items():
+            d = a.rs[k][0]
+            t_oblig(run, f'declared-read-set[{k}]', d <= decl, key=f'read-set:{k}',
+                    what=f'cache key {k} (kept by flush_cache/copy keep flags) reads {sorted(d - decl)} outside its declared read-set {sorted(decl)}',
+                    witness={'derived': sorted(d), 'declared': sorted(decl)}, engine='F')
+        run.notes['not_covered_by_F'] = NOT_COVERED_BY_F
+        run.notes['assumed_frame_facts'] = {'order_only': list(cache.ORDER_ONLY), 'labels_preserved': list(cache.LABELS_PRESERVED),
+                                            'store_override': {k: {a_: sorted(b) for a_, b in v.items()} for k, v in cache.STORE_OVERRIDE.items()},
+                                            'ring_family_kept': {k: list(v) for k, v in cache.TOPO_KEEPS.items()}, 'guards': [list(g) for g in cache.GUARDS]}
+    if want(run, 'T'):
+        # transaction rollback restores every state slot of the class
+        from chython.containers import MoleculeContainer
+        slots = set()
+        for c in MoleculeContainer.__mro__:
+            s = getattr(c, '__slots__', ())
+            slots |= set((s,) if isinstance(s, str) else s)
+        tree = tables.module_ast('chython/containers/molecule.py')
+        ex = tables.find_def(tree, 'MoleculeContainer.__exit__')
+        branch = next(s for s in ex.body if isinstance(s, ast.If)).body
+        assigned = {t.attr for s in branch for t in getattr(s, 'targets', []) if isinstance(t, ast.Attribute) and isinstance(t.value, ast.Name) and t.value.id == 'self'}
+        after = {t.attr for s in ex.body for t in getattr(s, 'targets', []) if isinstance(t, ast.Attribute)}
+        need = slots - {'_conformers', '_backup'}
+        for sl in sorted(need):
+            t_oblig(run, f'__exit__/rollback-restores-slot[{sl}]', sl in assigned, key=f'rollback-slot:{sl}',
+                    what=f'a failed transaction does not restore slot {sl}', witness={'assigned': sorted(assigned)})
+        t_oblig(run, '__exit__/clears-backup', '_backup' in after)
+        # constructors bind every slot (the mutators read _changed / _backup unconditionally)
+        from chython import smiles
+        m = smiles('C[C@H](N)C(=O)O.Cl')
+        for label, obj in (('copy', m.copy()), ('substructure', m.substructure([1, 2, 3])), ('union', m | smiles('CC')), ('split', m.split()[0]),
+                           ('__init__', MoleculeContainer())):
+            for sl in sorted(need):
+                try:
+                    getattr(obj, sl)
+                    ok = True
+                except AttributeError:
+                    ok = False
+                t_oblig(run, f'well-formed[{label}]/slot-bound[{sl}]', ok, key=f'slot-unbound:{label}:{sl}', what=f'{label}() result has slot {sl} unbound')
+    if want(run, 'P'):
+        run.under_contract('chython/algorithms/stereo.py', 'MoleculeStereo.fix_stereo/while[0]', cachelemmas.region_text())
+        run_cases(run, 'contracts.cachelemmas')
     bounded_part(run, 'C13')
+    run.assume('attribute names identify locations (charge, _order, _stereo, ... are not reused for unrelated data)',
+               'atoms and bonds are reached only through the container (no external alias is mutated outside a transaction)',
+               'assumed frame facts listed in coverage.notes.assumed_frame_facts (aromatisation/resonance never move a bond across the order-8 class; '
+               'renaming, union of disjoint coherent graphs and deletion of bond-free atoms preserve labels; terminal hydrogens lie on no ring; '
+               'changed-set guards are falsy only if nothing was written)',
+               'implicit-hydrogen recalculation (calc_implicit per changed atom) is not modelled by F; the bounded histories cover it')
     return FINISH
